@@ -38,6 +38,11 @@ Definition ans_ok (a : ans) : Prop :=
   a_out a = answer (a_top a) (a_brsp a) /\ m_rspto (a_brsp a) = m_id (a_bot a) /\
   is_rsp (a_brsp a) = true.
 
+(** a lookup is never invented: it was issued for an accepted request *)
+Definition treq_ok (c : config) (acc : list msg) (q : treq) : Prop :=
+  q_dev q = dev c /\
+  (exists r, In r acc /\ req_ok (log2ps c) q r /\ q_dst q = tr_dst c (m_addr r)).
+
 Record Inv (s : st) : Prop := {
   i_deliv : map fst (g_seen s) ++ top_in s = g_deliv s;
   i_acct  : Permutation (accepted (g_seen s))
@@ -51,6 +56,7 @@ Record Inv (s : st) : Prop := {
   i_fwr   : incl (map f_rsp (g_fwd s)) (g_trdel s);
   i_tid   : Forall (fun q => q_id q < next_tid s) (g_treq s);
   i_tidnd : NoDup (map q_id (g_treq s));
+  i_treq  : Forall (treq_ok (cfg s) (accepted (g_seen s))) (g_treq s);
   i_bid   : Forall (fun f => bid_f f < next_bid s) (g_fwd s);
   i_bidnd : NoDup (map bid_f (g_fwd s));
   i_pairs : Permutation (map pair_f (g_fwd s))
@@ -67,17 +73,21 @@ Record Inv (s : st) : Prop := {
 }.
 
 Ltac inv_split H :=
-  destruct H as [Hdeliv Hacct Htxs Htxq Htxr Htrin Hfwd Hfwq Hfwr Htid Htidnd Hbid Hbidnd
+  destruct H as [Hdeliv Hacct Htxs Htxq Htxr Htrin Hfwd Hfwq Hfwr Htid Htidnd Htreq Hbid Hbidnd
                  Hpairs Hans Htretr Hbretr Hqretr Hflush Hpt Hpb Hpx Hpc].
 
 Lemma init_inv c : Inv (init c).
 Proof.
   constructor; cbn; auto using NoDup_nil, incl_nil_l; try lia.
-  - constructor.
-  - constructor.
 Qed.
 
 (** ** list helpers *)
+Lemma treq_ok_mono c acc acc' l :
+  incl acc acc' -> Forall (treq_ok c acc) l -> Forall (treq_ok c acc') l.
+Proof.
+  intros Hi. apply Forall_impl. intros q (Hd & r & Hin & Hr). split; auto. exists r; auto.
+Qed.
+
 Lemma accepted_app l1 l2 : accepted (l1 ++ l2) = accepted l1 ++ accepted l2.
 Proof. unfold accepted. now rewrite filter_app, map_app. Qed.
 
@@ -133,6 +143,16 @@ Proof.
   - constructor; auto. lia.
 Qed.
 
+Lemma NoDup_map_inj_N {A} (f : A -> N) (l : list A) x y :
+  NoDup (map f l) -> In x l -> In y l -> f x = f y -> x = y.
+Proof.
+  induction l as [|a l IH]; cbn; [tauto|]. intros Hn Hx Hy E.
+  inversion Hn as [|? ? Hni Hn']; subst.
+  destruct Hx as [->|Hx], Hy as [->|Hy]; auto.
+  - exfalso; apply Hni. rewrite E. now apply in_map.
+  - exfalso; apply Hni. rewrite <- E. now apply in_map.
+Qed.
+
 Lemma incl_snoc {A} (l m : list A) x : incl l m -> incl (l ++ [x]) (m ++ [x]).
 Proof. intros H. apply incl_app; [apply incl_appl; auto|apply incl_appr, incl_refl]. Qed.
 
@@ -183,7 +203,7 @@ Proof.
     + rewrite map_app, <- app_assoc. cbn. now rewrite <- Hdeliv, Etop.
     + rewrite accepted_app. change (accepted [(req, true)]) with [req].
       rewrite waiting_app, waiting_cons in *. cbn [t_reqs].
-      pfront req. apply perm_skip. now rewrite app_nil_r.
+      pfront req. apply perm_skip. rewrite !app_nil_r. exact Hacct.
     + apply Forall_app; split; auto. constructor; auto.
       destruct Ht as (Hne & Hall & Hr). repeat split; cbn; auto.
       * rewrite Er; intros E; destruct rs; discriminate.
@@ -191,6 +211,7 @@ Proof.
         apply co_match_ok; auto. repeat split; auto.
     + rewrite map_app in *. exact Htxq.
     + rewrite flat_map_app in *. exact Htxr.
+    + rewrite accepted_app. eapply treq_ok_mono; [|exact Htreq]. now apply incl_appl.
   - destruct (room _ (tr_out s)) eqn:Eroom; [|exact H].
     unfold room in Eroom. apply Nat.ltb_lt in Eroom.
     inv_split H. constructor; cbn; auto; try (intros; congruence).
@@ -206,6 +227,881 @@ Proof.
     + now apply incl_appl.
     + now apply Forall_snoc_fresh.
     + eapply NoDup_snoc_fresh; eauto.
+    + rewrite accepted_app. apply Forall_app; split.
+      * eapply treq_ok_mono; [|exact Htreq]. now apply incl_appl.
+      * constructor; auto. split; auto. exists req. repeat split; auto.
+        apply in_or_app; right; now left.
     + now rewrite app_assoc, Hqretr.
     + rewrite app_length; cbn; lia.
+Qed.
+
+(** ** parseTranslation *)
+Lemma waiting_after_send t rs rsp : waiting (after_send t rs rsp) = rs.
+Proof. destruct rs; cbn; auto. unfold waiting; cbn. now rewrite app_nil_r. Qed.
+
+Lemma after_send_q t rs rsp : incl (map t_q (after_send t rs rsp)) [t_q t].
+Proof. destruct rs; cbn; [apply incl_nil_l|apply incl_refl]. Qed.
+
+Lemma after_send_r t rs rsp : incl (flat_map rsp_of (after_send t rs rsp)) [rsp].
+Proof. destruct rs; cbn; [apply incl_nil_l|apply incl_refl]. Qed.
+
+Lemma after_send_ok k t r rs rsp :
+  tx_ok k t -> t_reqs t = r :: rs -> r_rspto rsp = q_id (t_q t) ->
+  Forall (tx_ok k) (after_send t rs rsp).
+Proof.
+  intros (Hne & Hall & _) Er Hid. destruct rs as [|r1 rs]; cbn; [constructor|].
+  constructor; [|constructor]. rewrite Er in Hall. inversion Hall; subst.
+  repeat split; cbn; auto; try discriminate. intros ? E; inversion E; subst; auto.
+Qed.
+
+Lemma send_down_inv s a t b r rs rsp :
+  Inv s -> txs s = a ++ t :: b -> t_reqs t = r :: rs ->
+  r_rspto rsp = q_id (t_q t) -> In rsp (g_trdel s) ->
+  room (width (cfg s)) (bot_out s) = true ->
+  Inv (send_down s a t b r rs rsp).
+Proof.
+  intros H Etx Er Hid Hin Eroom. unfold room in Eroom. apply Nat.ltb_lt in Eroom.
+  inv_split H. rewrite Etx in *.
+  pose proof Htxs as Htxs0.
+  apply Forall_app in Htxs as [Htxa Htxb]. inversion Htxb as [|? ? Ht Htxb']; subst.
+  assert (Hq : In (t_q t) (g_treq s)).
+  { apply Htxq. rewrite map_app; cbn. apply in_or_app; right; left; auto. }
+  unfold send_down. constructor; cbn; auto.
+  - rewrite map_app; cbn. rewrite !waiting_app, waiting_after_send.
+    rewrite waiting_app, waiting_cons, Er in Hacct.
+    rewrite Hacct. pfront r. apply perm_skip. now rewrite !app_nil_r.
+  - apply Forall_app; split; auto. apply Forall_app; split; auto.
+    eapply after_send_ok; eauto.
+  - rewrite !map_app. intros x Hx. apply in_app_or in Hx as [Hx|Hx].
+    + apply Htxq. rewrite map_app. apply in_or_app; auto.
+    + apply in_app_or in Hx as [Hx|Hx].
+      * apply after_send_q in Hx as [<-|[]]; auto.
+      * apply Htxq. rewrite map_app; cbn. apply in_or_app; right; right; auto.
+  - rewrite !flat_map_app. intros x Hx. apply in_app_or in Hx as [Hx|Hx].
+    + apply Htxr. rewrite flat_map_app. apply in_or_app; auto.
+    + apply in_app_or in Hx as [Hx|Hx].
+      * apply after_send_r in Hx as [<-|[]]; auto.
+      * apply Htxr. rewrite flat_map_app; cbn. apply in_or_app; right. apply in_or_app; auto.
+  - apply Forall_app; split; auto. constructor; auto.
+    destruct Ht as (_ & Hall & _). rewrite Er in Hall. inversion Hall; subst.
+    repeat split; cbn; auto; try apply H1. now rewrite xlate_id.
+  - rewrite map_app; cbn. apply incl_app; auto. intros x [<-|[]]; auto.
+  - rewrite map_app; cbn. apply incl_app; auto. intros x [<-|[]]; auto.
+  - apply Forall_snoc_fresh; auto. unfold bid_f; cbn. apply xlate_id.
+  - eapply NoDup_snoc_fresh; eauto. unfold bid_f; cbn. apply xlate_id.
+  - rewrite map_app; cbn. unfold pair_f at 2; cbn. rewrite !app_assoc. apply perm_snoc.
+    now rewrite <- !app_assoc.
+  - rewrite map_app; cbn. now rewrite app_assoc, Hbretr.
+  - intros Hf. destruct (Hflush Hf) as [E _]. destruct a; discriminate.
+  - rewrite app_length; cbn; lia.
+Qed.
+
+Lemma drop_trin_inv s x rest : Inv s -> tr_in s = x :: rest -> Inv (s <| tr_in := rest |>).
+Proof.
+  intros H E. inv_split H. constructor; cbn; auto.
+  intros y Hy. apply Htrin. rewrite E. now right.
+Qed.
+
+Lemma set_crashed_inv s : Inv s -> Inv (s <| crashed := true |>).
+Proof. intros H. inv_split H. constructor; cbn; auto. Qed.
+
+Lemma set_rsp_inv s a t b rsp :
+  Inv s -> txs s = a ++ t :: b -> r_rspto rsp = q_id (t_q t) -> In rsp (g_trdel s) ->
+  Inv (s <| txs := a ++ mkTx (t_reqs t) (t_q t) (Some rsp) :: b |>).
+Proof.
+  intros H Etx Hid Hin. inv_split H. rewrite Etx in *.
+  apply Forall_app in Htxs as [Htxa Htxb]. inversion Htxb as [|? ? Ht Htxb']; subst.
+  constructor; cbn; auto.
+  - rewrite waiting_app, waiting_cons in *. exact Hacct.
+  - apply Forall_app; split; auto. constructor; auto.
+    destruct Ht as (Hne & Hall & _). repeat split; cbn; auto.
+    intros ? E; inversion E; subst; auto.
+  - rewrite map_app in *. exact Htxq.
+  - rewrite flat_map_app in *. cbn in *. intros x Hx.
+    apply in_app_or in Hx as [Hx|Hx]; [apply Htxr, in_or_app; auto|].
+    destruct Hx as [<-|Hx]; auto. apply Htxr. apply in_or_app; right. apply in_or_app; auto.
+  - intros Hf. destruct (Hflush Hf) as [E _]. destruct a; discriminate.
+Qed.
+
+Lemma parse_translation_inv s : Inv s -> Inv (fst (parse_translation s)).
+Proof.
+  intros H; unfold parse_translation.
+  destruct (split_first drainable (txs s)) as [[[a t] b]|] eqn:Esp.
+  - apply split_first_spec in Esp as (Etx & Hd & _).
+    destruct (t_reqs t) as [|r rs] eqn:Er; [apply set_crashed_inv; auto|].
+    destruct (t_rsp t) as [rsp|] eqn:Ersp; [|apply set_crashed_inv; auto].
+    destruct (is_req r); cbn [negb]; [|apply set_crashed_inv; auto].
+    destruct (room _ (bot_out s)) eqn:Eroom; [|exact H]. cbn [fst].
+    pose proof H as H0. inv_split H0. rewrite Etx in *.
+    apply Forall_app in Htxs as [_ Htxb]. inversion Htxb as [|? ? Ht _]; subst.
+    eapply send_down_inv; eauto.
+    + destruct Ht as (_ & _ & Hr). auto.
+    + apply Htxr. rewrite flat_map_app; cbn. apply in_or_app; right.
+      unfold rsp_of at 1. rewrite Ersp. now left.
+  - destruct (tr_in s) as [|rsp rest] eqn:Etr; [exact H|].
+    assert (Hin : In rsp (g_trdel s)).
+    { destruct H. apply i_trin0. rewrite Etr; now left. }
+    destruct (split_first (fun t => q_id (t_q t) =? r_rspto rsp) (txs s)) as [[[a t] b]|] eqn:Esp2.
+    2:{ cbn [fst]. eapply drop_trin_inv; eauto. }
+    apply split_first_spec in Esp2 as (Etx & Hid & _). apply N.eqb_eq in Hid. symmetry in Hid.
+    pose proof (set_rsp_inv s a t b rsp H Etx Hid Hin) as H1.
+    destruct (t_reqs t) as [|r rs] eqn:Er; [apply set_crashed_inv; auto|].
+    destruct (is_req r); cbn [negb]; [|apply set_crashed_inv; auto].
+    destruct (room _ (bot_out s)) eqn:Eroom; [|exact H1]. cbn [fst].
+    eapply drop_trin_inv with (x := rsp); [eapply send_down_inv; eauto|].
+    exact Etr.
+Qed.
+
+(** ** respond *)
+Lemma respond_inv s : Inv s -> Inv (fst (respond s)).
+Proof.
+  intros H; unfold respond.
+  destruct (bot_in s) as [|rsp rest] eqn:Ebot; [exact H|].
+  destruct (is_rsp rsp) eqn:Ersp; cbn [negb]; [|apply set_crashed_inv; auto].
+  destruct (split_first _ (inflight s)) as [[[a p] b]|] eqn:Esp.
+  2:{ inv_split H; constructor; cbn; auto. }
+  apply split_first_spec in Esp as (Einf & Hid & _). apply N.eqb_eq in Hid.
+  destruct (room _ (top_out s)) eqn:Eroom; [|exact H].
+  unfold room in Eroom. apply Nat.ltb_lt in Eroom.
+  inv_split H. rewrite Einf in *. constructor; cbn; auto.
+  - rewrite map_app; cbn. unfold pair_a at 2; cbn. rewrite <- surjective_pairing.
+    rewrite Hpairs. pfront p. apply perm_skip. now rewrite !app_nil_r.
+  - apply Forall_app; split; auto. constructor; auto. repeat split; cbn; auto.
+  - rewrite map_app; cbn. now rewrite app_assoc, Htretr.
+  - intros Hf. destruct (Hflush Hf) as [_ E]. destruct a; discriminate.
+  - rewrite app_length; cbn; lia.
+Qed.
+
+(** ** control *)
+Lemma handle_ctrl_inv s : Inv s -> Inv (fst (handle_ctrl s)).
+Proof.
+  intros H; unfold handle_ctrl.
+  destruct (ctl_in s) as [|c rest] eqn:Ectl; [exact H|].
+  destruct (kind_eqb (m_kind c) KCtrl); cbn [negb]; [|apply set_crashed_inv; auto].
+  destruct (has_flag c F_DISCARD).
+  { destruct (room 1 (ctl_out s)) eqn:Eroom; [|exact H].
+    unfold room in Eroom. apply Nat.ltb_lt in Eroom.
+    inv_split H; constructor; cbn; auto using incl_nil_l.
+    - rewrite waiting_nil, app_nil_r. exact Hacct.
+    - rewrite app_nil_r. exact Hpairs.
+    - rewrite app_length; cbn; lia. }
+  destruct (has_flag c F_RESTART); [|apply set_crashed_inv; auto].
+  destruct (room 1 (ctl_out s)) eqn:Eroom; [|exact H].
+  unfold room in Eroom. apply Nat.ltb_lt in Eroom.
+  inv_split H; constructor; cbn; auto using incl_nil_l.
+  - rewrite map_app, map_fst_tag, app_nil_r. exact Hdeliv.
+  - rewrite accepted_app, accepted_dropped, app_nil_r. exact Hacct.
+  - rewrite accepted_app, accepted_dropped, app_nil_r. exact Htreq.
+  - intros; discriminate.
+  - rewrite app_length; cbn; lia.
+Qed.
+
+(** ** configuration and flushing flag are untouched by the pipeline stages *)
+Definition stable (s s' : st) : Prop := cfg s' = cfg s /\ flushing s' = flushing s.
+Lemma stable_refl s : stable s s. Proof. split; auto. Qed.
+Lemma stable_trans a b c : stable a b -> stable b c -> stable a c.
+Proof. unfold stable; intuition congruence. Qed.
+
+Ltac crush_stable :=
+  repeat match goal with
+         | |- context [match ?x with _ => _ end] => destruct x
+         end; cbn; try apply stable_refl; try (split; reflexivity).
+
+Lemma translate_stable s : stable s (fst (translate s)).
+Proof. unfold translate. crush_stable. Qed.
+Lemma parse_translation_stable s : stable s (fst (parse_translation s)).
+Proof. unfold parse_translation, send_down. crush_stable. Qed.
+Lemma respond_stable s : stable s (fst (respond s)).
+Proof. unfold respond. crush_stable. Qed.
+Lemma handle_ctrl_cfg s : cfg (fst (handle_ctrl s)) = cfg s.
+Proof.
+  unfold handle_ctrl.
+  repeat match goal with |- context [match ?x with _ => _ end] => destruct x end; reflexivity.
+Qed.
+
+Lemma guard_stable f s : (forall s, stable s (fst (f s))) -> stable s (fst (guard f s)).
+Proof. intros Hf. unfold guard. destruct (crashed s); [apply stable_refl|apply Hf]. Qed.
+
+Lemma iter_stable f : (forall s, stable s (fst (f s))) -> forall n s, stable s (fst (iter n f s)).
+Proof.
+  intros Hf; induction n as [|n IH]; intros s; cbn; [apply stable_refl|].
+  pose proof (guard_stable f s Hf) as H1. destruct (guard f s) as [s1 p1]; cbn in H1.
+  specialize (IH s1). destruct (iter n f s1) as [s2 p2]; cbn in *.
+  eapply stable_trans; eauto.
+Qed.
+
+(** ** lifting the invariant *)
+Definition InvNF (s : st) : Prop := Inv s /\ flushing s = false.
+
+Lemma guard_pres (P : st -> Prop) f s :
+  (forall s, P s -> P (fst (f s))) -> P s -> P (fst (guard f s)).
+Proof. intros Hf H. unfold guard. destruct (crashed s); auto. Qed.
+
+Lemma iter_pres (P : st -> Prop) f :
+  (forall s, P s -> P (fst (f s))) -> forall n s, P s -> P (fst (iter n f s)).
+Proof.
+  intros Hf; induction n as [|n IH]; intros s H; cbn; auto.
+  pose proof (guard_pres P f s Hf H) as H1. destruct (guard f s) as [s1 p1]; cbn in H1.
+  specialize (IH s1 H1). destruct (iter n f s1) as [s2 p2]; auto.
+Qed.
+
+Lemma respond_nf s : InvNF s -> InvNF (fst (respond s)).
+Proof.
+  intros [H F]. split; [now apply respond_inv|].
+  destruct (respond_stable s) as [_ E]. congruence.
+Qed.
+Lemma parse_translation_nf s : InvNF s -> InvNF (fst (parse_translation s)).
+Proof.
+  intros [H F]. split; [now apply parse_translation_inv|].
+  destruct (parse_translation_stable s) as [_ E]. congruence.
+Qed.
+Lemma translate_nf s : InvNF s -> InvNF (fst (translate s)).
+Proof.
+  intros [H F]. split; [now apply translate_inv|].
+  destruct (translate_stable s) as [_ E]. congruence.
+Qed.
+
+Lemma run_pipeline_inv s : Inv s -> flushing s = false -> Inv (fst (run_pipeline s)).
+Proof.
+  intros H F. unfold run_pipeline.
+  pose proof (iter_pres InvNF respond respond_nf (width (cfg s)) s (conj H F)) as H1.
+  destruct (iter (width (cfg s)) respond s) as [s1 p1]; cbn in H1.
+  pose proof (iter_pres InvNF _ parse_translation_nf (width (cfg s)) s1 H1) as H2.
+  destruct (iter (width (cfg s)) parse_translation s1) as [s2 p2]; cbn in H2.
+  pose proof (iter_pres InvNF _ translate_nf (width (cfg s)) s2 H2) as H3.
+  destruct (iter (width (cfg s)) translate s2) as [s3 p3]; cbn in H3. apply H3.
+Qed.
+
+Lemma run_pipeline_cfg s : cfg (fst (run_pipeline s)) = cfg s.
+Proof.
+  unfold run_pipeline.
+  pose proof (iter_stable _ respond_stable (width (cfg s)) s) as [H1 _].
+  destruct (iter (width (cfg s)) respond s) as [s1 p1]; cbn in H1.
+  pose proof (iter_stable _ parse_translation_stable (width (cfg s)) s1) as [H2 _].
+  destruct (iter (width (cfg s)) parse_translation s1) as [s2 p2]; cbn in H2.
+  pose proof (iter_stable _ translate_stable (width (cfg s)) s2) as [H3 _].
+  destruct (iter (width (cfg s)) translate s2) as [s3 p3]; cbn in *. congruence.
+Qed.
+
+Lemma tick_inv s : Inv s -> Inv (fst (tick s)).
+Proof.
+  intros H. unfold tick.
+  assert (H1 : Inv (fst (if flushing s then iter (width (cfg s)) parse_translation s
+                         else run_pipeline s))).
+  { destruct (flushing s) eqn:F.
+    - apply iter_pres; auto using parse_translation_inv.
+    - apply run_pipeline_inv; auto. }
+  destruct (if flushing s then _ else _) as [s1 p1]; cbn in H1.
+  pose proof (guard_pres Inv handle_ctrl s1 handle_ctrl_inv H1) as H2.
+  destruct (guard handle_ctrl s1) as [s2 p2]; exact H2.
+Qed.
+
+Lemma tick_cfg s : cfg (fst (tick s)) = cfg s.
+Proof.
+  unfold tick.
+  assert (H1 : cfg (fst (if flushing s then iter (width (cfg s)) parse_translation s
+                         else run_pipeline s)) = cfg s).
+  { destruct (flushing s).
+    - apply (iter_stable _ parse_translation_stable).
+    - apply run_pipeline_cfg. }
+  destruct (if flushing s then _ else _) as [s1 p1]; cbn in H1.
+  assert (H2 : cfg (fst (guard handle_ctrl s1)) = cfg s1).
+  { unfold guard. destruct (crashed s1); auto using handle_ctrl_cfg. }
+  destruct (guard handle_ctrl s1) as [s2 p2]; cbn in *. congruence.
+Qed.
+
+Lemma step_inv s e : Inv s -> Inv (fst (step s e)).
+Proof.
+  intros H; unfold step. destruct (crashed s); [exact H|].
+  destruct e as [m|m|r|m| | | | | ].
+  - destruct (room _ _); [|exact H]. inv_split H; constructor; cbn; auto.
+    now rewrite app_assoc, Hdeliv.
+  - destruct (room _ _); [|exact H]. inv_split H; constructor; cbn; auto.
+  - destruct (room _ _); [|exact H]. inv_split H; constructor; cbn; auto using incl_appl.
+    now apply incl_snoc.
+  - destruct (room _ _); [|exact H]. inv_split H; constructor; cbn; auto.
+  - pose proof (tick_inv s H) as H1. destruct (tick s) as [s' p]; cbn in H1.
+    destruct (crashed s'); exact H1.
+  - destruct (top_out s) as [|m r] eqn:E; [exact H|].
+    inv_split H; constructor; cbn; auto.
+    + rewrite <- app_assoc. cbn. now rewrite <- E.
+    + rewrite E in Hpt. cbn in *. lia.
+  - destruct (bot_out s) as [|m r] eqn:E; [exact H|].
+    inv_split H; constructor; cbn; auto.
+    + rewrite <- app_assoc. cbn. now rewrite <- E.
+    + rewrite E in Hpb. cbn in *. lia.
+  - destruct (tr_out s) as [|m r] eqn:E; [exact H|].
+    inv_split H; constructor; cbn; auto.
+    + rewrite <- app_assoc. cbn. now rewrite <- E.
+    + rewrite E in Hpx. cbn in *. lia.
+  - destruct (ctl_out s) as [|m r] eqn:E; [exact H|].
+    inv_split H; constructor; cbn; auto.
+    rewrite E in Hpc. cbn in *. lia.
+Qed.
+
+Lemma step_cfg s e : cfg (fst (step s e)) = cfg s.
+Proof.
+  unfold step. destruct (crashed s); [reflexivity|].
+  destruct e as [m|m|r|m| | | | | ]; try (destruct (room _ _); reflexivity).
+  - pose proof (tick_cfg s) as H1. destruct (tick s) as [s' p]; cbn in H1.
+    destruct (crashed s'); exact H1.
+  - destruct (top_out s); reflexivity.
+  - destruct (bot_out s); reflexivity.
+  - destruct (tr_out s); reflexivity.
+  - destruct (ctl_out s); reflexivity.
+Qed.
+
+Lemma run_inv evs : forall s, Inv s -> Inv (run s evs).
+Proof.
+  induction evs as [|e evs IH]; intros s H; cbn; auto.
+  apply IH. apply step_inv; auto.
+Qed.
+
+Lemma run_cfg evs : forall s, cfg (run s evs) = cfg s.
+Proof.
+  induction evs as [|e evs IH]; intros s; [reflexivity|].
+  change (run s (e :: evs)) with (run (fst (step s e)) evs).
+  rewrite IH. apply step_cfg.
+Qed.
+
+Lemma run_app s e1 e2 : run s (e1 ++ e2) = run (run s e1) e2.
+Proof. unfold run. apply fold_left_app. Qed.
+
+(** * Consequences used by props/C16.v *)
+
+Lemma accepted_subseq l : subseq (accepted l) (map fst l).
+Proof. unfold accepted. apply subseq_map, subseq_filter. Qed.
+
+Lemma accepted_of_delivered s : Inv s -> subseq (accepted (g_seen s)) (g_deliv s).
+Proof.
+  intros H. destruct H. rewrite <- i_deliv0.
+  eapply subseq_trans; [apply accepted_subseq|apply subseq_app_l].
+Qed.
+
+Definition owed (s : st) : list msg := map f_top (g_fwd s) ++ g_disc s ++ waiting (txs s).
+
+Lemma owed_ids_nodup s :
+  Inv s -> NoDup (map m_id (g_deliv s)) -> NoDup (map m_id (owed s)).
+Proof.
+  intros H Hn. pose proof (accepted_of_delivered s H) as Hs. destruct H.
+  eapply Permutation_NoDup; [apply Permutation_map; exact i_acct0|].
+  eapply subseq_NoDup; [apply subseq_map; exact Hs|exact Hn].
+Qed.
+
+Lemma owed_from_delivered s r : Inv s -> In r (owed s) -> In r (g_deliv s).
+Proof.
+  intros H Hin. pose proof (accepted_of_delivered s H) as Hs. destruct H.
+  eapply subseq_In; [exact Hs|]. eapply Permutation_in; [symmetry; exact i_acct0|exact Hin].
+Qed.
+
+Lemma fwd_once s :
+  Inv s -> NoDup (map m_id (g_deliv s)) -> NoDup (map m_id (map f_top (g_fwd s))).
+Proof.
+  intros H Hn. pose proof (owed_ids_nodup s H Hn) as Ho. unfold owed in Ho.
+  rewrite map_app in Ho. eapply NoDup_app_l; eauto.
+Qed.
+
+(** the environment answers a lookup with the page its table holds *)
+Definition env_ok (oracle : N -> N -> N) (s : st) : Prop :=
+  forall rsp q, In rsp (g_trdel s) -> In q (g_treq s) -> r_rspto rsp = q_id q ->
+                r_paddr rsp = oracle (q_pid q) (q_vaddr q).
+
+Lemma fwd_paddr s oracle f :
+  Inv s -> env_ok oracle s -> In f (g_fwd s) ->
+  is_req (f_top f) = true /\
+  f_bot f = xlate (cfg s) (m_id (f_bot f))
+                  (oracle (m_pid (f_top f)) (page_of (log2ps (cfg s)) (m_addr (f_top f))))
+                  (f_top f).
+Proof.
+  intros H Henv Hin. destruct H.
+  rewrite Forall_forall in i_fwd0. destruct (i_fwd0 _ Hin) as ((Hreq & Hpage & Hpid) & Hto & Hbot).
+  split; auto. rewrite Hbot at 1. f_equal.
+  rewrite Hpage, Hpid. apply Henv; auto.
+  - apply i_fwr0. now apply in_map.
+  - apply i_fwq0. now apply in_map.
+Qed.
+
+Lemma xaddr_nowrap c p a : p + 2 ^ log2ps c <= W64 -> xaddr c p a = p + a mod 2 ^ log2ps c.
+Proof.
+  intros Hle. unfold xaddr. apply N.mod_small.
+  assert (2 ^ log2ps c <> 0) by (apply N.pow_nonzero; lia).
+  pose proof (N.mod_upper_bound a (2 ^ log2ps c) H). lia.
+Qed.
+
+Lemma xlate_fields c id p r :
+  is_req r = true ->
+  let b := xlate c id p r in
+  m_id b = id /\ m_kind b = m_kind r /\ m_src b = P_BOT /\
+  m_addr b = xaddr c p (m_addr r) /\ m_dst b = mem_dst c (m_addr b) /\
+  m_pid b = 0 /\ m_rspto b = m_rspto r /\ m_flags b = N.land (m_flags r) F_CANWAIT /\
+  (m_kind r = KRead -> m_size b = m_size r) /\
+  (m_kind r = KWrite -> m_data b = m_data r /\ m_mask b = m_mask r).
+Proof.
+  unfold xlate, is_req. destruct (m_kind r); try discriminate; cbn; intuition discriminate.
+Qed.
+
+(** one lookup serves only requests of its own page and process *)
+Lemma fwd_share s f1 f2 :
+  Inv s -> In f1 (g_fwd s) -> In f2 (g_fwd s) -> q_id (f_q f1) = q_id (f_q f2) ->
+  page_of (log2ps (cfg s)) (m_addr (f_top f1)) = page_of (log2ps (cfg s)) (m_addr (f_top f2)) /\
+  m_pid (f_top f1) = m_pid (f_top f2).
+Proof.
+  intros H H1 H2 E. destruct H.
+  assert (Eq : f_q f1 = f_q f2).
+  { eapply NoDup_map_inj_N; eauto; apply i_fwq0; now apply in_map. }
+  rewrite Forall_forall in i_fwd0.
+  destruct (i_fwd0 _ H1) as ((_ & Hp1 & Hi1) & _). destruct (i_fwd0 _ H2) as ((_ & Hp2 & Hi2) & _).
+  rewrite Hp1, Hp2, Hi1, Hi2, Eq. auto.
+Qed.
+
+(** ** responses *)
+Lemma answer_rspto r x : m_rspto (answer r x) = m_id r.
+Proof. unfold answer; destruct (m_kind x); reflexivity. Qed.
+Lemma answer_dst r x : m_dst (answer r x) = m_src r.
+Proof. unfold answer; destruct (m_kind x); reflexivity. Qed.
+Lemma answer_src r x : m_src (answer r x) = P_TOP.
+Proof. unfold answer; destruct (m_kind x); reflexivity. Qed.
+Lemma answer_data r x : m_kind x = KDataReady -> m_data (answer r x) = m_data x.
+Proof. unfold answer; intros ->; reflexivity. Qed.
+Lemma answer_kind r x : is_rsp x = true -> m_kind (answer r x) = m_kind x.
+Proof. unfold answer, is_rsp; destruct (m_kind x); try discriminate; reflexivity. Qed.
+
+Definition top_id (p : msg * msg) : N := m_id (fst p).
+
+Lemma rsptos_are_top_ids s :
+  Inv s -> map m_rspto (g_tretr s ++ top_out s) = map top_id (map pair_a (g_ans s)).
+Proof.
+  intros H. destruct H. rewrite i_tretr0, !map_map.
+  apply map_ext_in. intros a Ha. rewrite Forall_forall in i_ans0.
+  destruct (i_ans0 _ Ha) as (-> & _). now rewrite answer_rspto.
+Qed.
+
+Lemma pair_ids_nodup s :
+  Inv s -> NoDup (map m_id (g_deliv s)) ->
+  NoDup (map top_id (map pair_a (g_ans s) ++ g_idisc s ++ inflight s)).
+Proof.
+  intros H Hn. pose proof (fwd_once s H Hn) as Hf. destruct H.
+  eapply Permutation_NoDup; [apply Permutation_map; exact i_pairs0|].
+  rewrite !map_map in *. exact Hf.
+Qed.
+
+Lemma rsp_once s :
+  Inv s -> NoDup (map m_id (g_deliv s)) -> NoDup (map m_rspto (g_tretr s ++ top_out s)).
+Proof.
+  intros H Hn. rewrite rsptos_are_top_ids by auto.
+  pose proof (pair_ids_nodup s H Hn) as Hp. rewrite map_app in Hp. eapply NoDup_app_l; eauto.
+Qed.
+
+Lemma rsp_origin s o :
+  Inv s -> In o (g_tretr s ++ top_out s) ->
+  exists a f, In a (g_ans s) /\ In f (g_fwd s) /\ a_top a = f_top f /\ a_bot a = f_bot f /\
+              o = answer (f_top f) (a_brsp a) /\ m_rspto (a_brsp a) = m_id (f_bot f) /\
+              is_rsp (a_brsp a) = true /\ In (f_top f) (g_deliv s).
+Proof.
+  intros H Hin. pose proof H as H0. destruct H0. rewrite i_tretr0 in Hin.
+  apply in_map_iff in Hin as (a & <- & Ha).
+  rewrite Forall_forall in i_ans0. destruct (i_ans0 _ Ha) as (Ho & Hto & Hk).
+  assert (Hp : In (pair_a a) (map pair_f (g_fwd s))).
+  { eapply Permutation_in; [symmetry; exact i_pairs0|].
+    apply in_or_app; left. now apply in_map. }
+  apply in_map_iff in Hp as (f & Ef & Hf). unfold pair_f, pair_a in Ef. inversion Ef.
+  exists a, f. repeat split; auto; try congruence.
+  apply owed_from_delivered; auto. unfold owed. apply in_or_app; left. now apply in_map.
+Qed.
+
+(** ** the discard logs only grow *)
+Definition ext {A} (a b : list A) : Prop := exists l, b = a ++ l.
+Lemma ext_refl {A} (a : list A) : ext a a. Proof. exists []; now rewrite app_nil_r. Qed.
+Lemma ext_trans {A} (a b c : list A) : ext a b -> ext b c -> ext a c.
+Proof. intros [l1 ->] [l2 ->]. exists (l1 ++ l2). now rewrite app_assoc. Qed.
+Lemma ext_app {A} (a l : list A) : ext a (a ++ l). Proof. now exists l. Qed.
+Lemma ext_In {A} (a b : list A) x : ext a b -> In x a -> In x b.
+Proof. intros [l ->] H. apply in_or_app; auto. Qed.
+
+Definition grows (s s' : st) : Prop :=
+  ext (g_disc s) (g_disc s') /\ ext (g_idisc s) (g_idisc s') /\
+  ext (g_fwd s) (g_fwd s') /\ ext (g_ans s) (g_ans s').
+Lemma grows_refl s : grows s s. Proof. repeat split; apply ext_refl. Qed.
+Lemma grows_trans a b c : grows a b -> grows b c -> grows a c.
+Proof. intros (A1 & A2 & A3 & A4) (B1 & B2 & B3 & B4); repeat split; eauto using ext_trans. Qed.
+
+Ltac crush_grows :=
+  repeat match goal with
+         | |- context [match ?x with _ => _ end] => destruct x
+         end; cbn; try apply grows_refl;
+  try (repeat split; cbn; first [apply ext_refl|apply ext_app]).
+
+Lemma translate_grows s : grows s (fst (translate s)).
+Proof. unfold translate. crush_grows. Qed.
+Lemma parse_translation_grows s : grows s (fst (parse_translation s)).
+Proof. unfold parse_translation, send_down. crush_grows. Qed.
+Lemma respond_grows s : grows s (fst (respond s)).
+Proof. unfold respond. crush_grows. Qed.
+Lemma handle_ctrl_grows s : grows s (fst (handle_ctrl s)).
+Proof. unfold handle_ctrl. crush_grows. Qed.
+
+Lemma guard_grows f s : (forall s, grows s (fst (f s))) -> grows s (fst (guard f s)).
+Proof. intros Hf. unfold guard. destruct (crashed s); [apply grows_refl|apply Hf]. Qed.
+
+Lemma iter_grows f : (forall s, grows s (fst (f s))) -> forall n s, grows s (fst (iter n f s)).
+Proof.
+  intros Hf; induction n as [|n IH]; intros s; cbn; [apply grows_refl|].
+  pose proof (guard_grows f s Hf) as H1. destruct (guard f s) as [s1 p1]; cbn in H1.
+  specialize (IH s1). destruct (iter n f s1) as [s2 p2]; cbn in *.
+  eapply grows_trans; eauto.
+Qed.
+
+Lemma run_pipeline_grows s : grows s (fst (run_pipeline s)).
+Proof.
+  unfold run_pipeline.
+  pose proof (iter_grows _ respond_grows (width (cfg s)) s) as H1.
+  destruct (iter (width (cfg s)) respond s) as [s1 p1]; cbn in H1.
+  pose proof (iter_grows _ parse_translation_grows (width (cfg s)) s1) as H2.
+  destruct (iter (width (cfg s)) parse_translation s1) as [s2 p2]; cbn in H2.
+  pose proof (iter_grows _ translate_grows (width (cfg s)) s2) as H3.
+  destruct (iter (width (cfg s)) translate s2) as [s3 p3]; cbn in *.
+  eauto using grows_trans.
+Qed.
+
+Lemma tick_grows s : grows s (fst (tick s)).
+Proof.
+  unfold tick.
+  assert (H1 : grows s (fst (if flushing s then iter (width (cfg s)) parse_translation s
+                             else run_pipeline s))).
+  { destruct (flushing s).
+    - apply iter_grows, parse_translation_grows.
+    - apply run_pipeline_grows. }
+  destruct (if flushing s then _ else _) as [s1 p1]; cbn in H1.
+  pose proof (guard_grows handle_ctrl s1 handle_ctrl_grows) as H2.
+  destruct (guard handle_ctrl s1) as [s2 p2]; cbn in *. eauto using grows_trans.
+Qed.
+
+Ltac gsolve := first [apply grows_refl | repeat split; cbn; apply ext_refl].
+
+Lemma step_grows s e : grows s (fst (step s e)).
+Proof.
+  unfold step. destruct (crashed s); [apply grows_refl|].
+  destruct e as [m|m|r|m| | | | | ]; try (destruct (room _ _); gsolve).
+  - pose proof (tick_grows s) as H1. destruct (tick s) as [s' p]; cbn in H1.
+    destruct (crashed s'); exact H1.
+  - destruct (top_out s); gsolve.
+  - destruct (bot_out s); gsolve.
+  - destruct (tr_out s); gsolve.
+  - destruct (ctl_out s); gsolve.
+Qed.
+
+Lemma run_grows evs : forall s, grows s (run s evs).
+Proof.
+  induction evs as [|e evs IH]; intros s; [apply grows_refl|].
+  change (run s (e :: evs)) with (run (fst (step s e)) evs).
+  eapply grows_trans; [apply step_grows|apply IH].
+Qed.
+
+(** a request discarded while waiting is never forwarded, hence never answered *)
+Lemma discarded_never_forwarded s r :
+  Inv s -> NoDup (map m_id (g_deliv s)) -> In r (g_disc s) ->
+  ~ In (m_id r) (map m_id (map f_top (g_fwd s))) /\
+  ~ In (m_id r) (map m_rspto (g_tretr s ++ top_out s)).
+Proof.
+  intros H Hn Hin. pose proof (owed_ids_nodup s H Hn) as Ho. unfold owed in Ho.
+  rewrite map_app in Ho.
+  assert (Hnf : ~ In (m_id r) (map m_id (map f_top (g_fwd s)))).
+  { intros Hc. eapply NoDup_app_disj; [exact Ho|exact Hc|].
+    apply in_map. apply in_or_app; now left. }
+  split; auto. intros Hc. apply Hnf.
+  apply in_map_iff in Hc as (o & Eo & Ho').
+  apply rsp_origin in Ho' as (a & f & _ & Hf & _ & _ & -> & _); auto.
+  rewrite answer_rspto in Eo. rewrite <- Eo. apply in_map. now apply in_map.
+Qed.
+
+(** a forwarded request whose in-flight entry was discarded is never answered *)
+Lemma discarded_never_answered s p :
+  Inv s -> NoDup (map m_id (g_deliv s)) -> In p (g_idisc s) ->
+  ~ In (m_id (fst p)) (map m_rspto (g_tretr s ++ top_out s)).
+Proof.
+  intros H Hn Hin Hc. pose proof (pair_ids_nodup s H Hn) as Hp.
+  rewrite rsptos_are_top_ids in Hc by auto. rewrite map_app in Hp.
+  eapply NoDup_app_disj; [exact Hp|exact Hc|].
+  change (m_id (fst p)) with (top_id p). apply in_map. apply in_or_app; now left.
+Qed.
+
+(** what a discard request does when it is taken *)
+Lemma discard_effect s c rest :
+  ctl_in s = c :: rest -> m_kind c = KCtrl -> has_flag c F_DISCARD = true -> ctl_out s = [] ->
+  let s' := fst (handle_ctrl s) in
+  txs s' = [] /\ inflight s' = [] /\ flushing s' = true /\
+  g_disc s' = g_disc s ++ waiting (txs s) /\ g_idisc s' = g_idisc s ++ inflight s /\
+  ctl_out s' = [ctl_ack c] /\ g_fwd s' = g_fwd s /\ g_ans s' = g_ans s /\
+  bot_out s' = bot_out s /\ top_out s' = top_out s.
+Proof.
+  intros Hin Hk Hf Hout. unfold handle_ctrl. rewrite Hin, Hk, Hf, Hout. cbn.
+  repeat split; reflexivity.
+Qed.
+
+(** ** no Go panic is reachable under protocol-respecting traffic *)
+Definition ctl_okb (m : msg) : bool :=
+  kind_eqb (m_kind m) KCtrl && (has_flag m F_DISCARD || has_flag m F_RESTART).
+
+Definition benign (e : ev) : bool :=
+  match e with
+  | EDeliverTop m => is_req m
+  | EDeliverBot m => is_rsp m
+  | EDeliverCtl m => ctl_okb m
+  | _ => true
+  end.
+
+Record Safe (s : st) : Prop := {
+  s_nc  : crashed s = false;
+  s_top : Forall (fun m => is_req m = true) (top_in s);
+  s_bot : Forall (fun m => is_rsp m = true) (bot_in s);
+  s_ctl : Forall (fun m => ctl_okb m = true) (ctl_in s)
+}.
+
+Lemma tx_in_ok s a t b : Inv s -> txs s = a ++ t :: b -> tx_ok (log2ps (cfg s)) t.
+Proof.
+  intros H E. destruct H. rewrite E in i_txs0.
+  apply Forall_app in i_txs0 as [_ Hb]. now inversion Hb.
+Qed.
+
+Lemma translate_safe s : Inv s -> Safe s -> Safe (fst (translate s)).
+Proof.
+  intros H S; pose proof S as [Hnc Ht Hb Hc]; unfold translate.
+  destruct (top_in s) as [|req rest] eqn:Etop; [exact S|].
+  inversion Ht as [|? ? Hreq Hrest]; subst. rewrite Hreq; cbn [negb].
+  destruct (split_first _ (txs s)) as [[[a t] b]|] eqn:Esp.
+  - apply split_first_spec in Esp as (Etx & _ & _).
+    destruct (tx_in_ok s a t b H Etx) as (Hne & _ & _).
+    destruct (t_reqs t) eqn:Er; [congruence|]. constructor; cbn; auto.
+  - destruct (room _ _); [|exact S]. constructor; cbn; auto.
+Qed.
+
+Lemma send_down_safe s a t b r rs rsp : Safe s -> Safe (send_down s a t b r rs rsp).
+Proof. intros [Hnc Ht Hb Hc]. constructor; cbn; auto. Qed.
+
+Lemma parse_translation_safe s : Inv s -> Safe s -> Safe (fst (parse_translation s)).
+Proof.
+  intros H Hs; unfold parse_translation.
+  destruct (split_first drainable (txs s)) as [[[a t] b]|] eqn:Esp.
+  - apply split_first_spec in Esp as (Etx & Hd & _).
+    destruct (tx_in_ok s a t b H Etx) as (Hne & Hall & _).
+    unfold drainable, is_done in Hd.
+    destruct (t_reqs t) as [|r rs] eqn:Er; [congruence|].
+    destruct (t_rsp t) as [rsp|]; [|discriminate].
+    inversion Hall as [|? ? (Hreq & _) _]; subst. rewrite Hreq; cbn [negb].
+    destruct (room _ _); [|exact Hs]. now apply send_down_safe.
+  - destruct (tr_in s) as [|rsp rest] eqn:Etr; [exact Hs|].
+    destruct (split_first (fun t => q_id (t_q t) =? r_rspto rsp) (txs s)) as [[[a t] b]|] eqn:Esp2.
+    2:{ destruct Hs; constructor; cbn; auto. }
+    apply split_first_spec in Esp2 as (Etx & _ & _).
+    destruct (tx_in_ok s a t b H Etx) as (Hne & Hall & _).
+    destruct (t_reqs t) as [|r rs] eqn:Er; [congruence|].
+    inversion Hall as [|? ? (Hreq & _) _]; subst. rewrite Hreq; cbn [negb].
+    destruct (room _ _); cbn [fst].
+    + pose proof (send_down_safe s a t b r rs rsp Hs) as [? ? ? ?]. constructor; cbn; auto.
+    + destruct Hs; constructor; cbn; auto.
+Qed.
+
+Lemma respond_safe s : Inv s -> Safe s -> Safe (fst (respond s)).
+Proof.
+  intros H S; pose proof S as [Hnc Ht Hb Hc]; unfold respond.
+  destruct (bot_in s) as [|rsp rest] eqn:Ebot; [exact S|].
+  inversion Hb as [|? ? Hrsp Hrest]; subst. rewrite Hrsp; cbn [negb].
+  destruct (split_first _ (inflight s)) as [[[a p] b]|].
+  - destruct (room _ _); [|exact S]. constructor; cbn; auto.
+  - constructor; cbn; auto.
+Qed.
+
+Lemma handle_ctrl_safe s : Inv s -> Safe s -> Safe (fst (handle_ctrl s)).
+Proof.
+  intros H S; pose proof S as [Hnc Ht Hb Hc]; unfold handle_ctrl.
+  destruct (ctl_in s) as [|c rest] eqn:Ectl; [exact S|].
+  inversion Hc as [|? ? Hok Hrest]; subst. unfold ctl_okb in Hok.
+  apply andb_prop in Hok as [Hk Hfl]. rewrite Hk; cbn [negb].
+  destruct (has_flag c F_DISCARD).
+  { destruct (room _ _); [|exact S]. constructor; cbn; auto. }
+  cbn in Hfl. rewrite Hfl.
+  destruct (room _ _); [|exact S]. constructor; cbn; auto.
+Qed.
+
+Definition IS (s : st) : Prop := Inv s /\ Safe s.
+Definition ISNF (s : st) : Prop := Inv s /\ Safe s /\ flushing s = false.
+
+Lemma respond_isnf s : ISNF s -> ISNF (fst (respond s)).
+Proof.
+  intros (H & S & F). split; [|split]; [now apply respond_inv|now apply respond_safe|].
+  destruct (respond_stable s) as [_ E]. congruence.
+Qed.
+Lemma parse_translation_isnf s : ISNF s -> ISNF (fst (parse_translation s)).
+Proof.
+  intros (H & S & F).
+  split; [|split]; [now apply parse_translation_inv|now apply parse_translation_safe|].
+  destruct (parse_translation_stable s) as [_ E]. congruence.
+Qed.
+Lemma translate_isnf s : ISNF s -> ISNF (fst (translate s)).
+Proof.
+  intros (H & S & F). split; [|split]; [now apply translate_inv|now apply translate_safe|].
+  destruct (translate_stable s) as [_ E]. congruence.
+Qed.
+Lemma parse_translation_is s : IS s -> IS (fst (parse_translation s)).
+Proof. intros (H & S). split; [now apply parse_translation_inv|now apply parse_translation_safe]. Qed.
+Lemma handle_ctrl_is s : IS s -> IS (fst (handle_ctrl s)).
+Proof. intros (H & S). split; [now apply handle_ctrl_inv|now apply handle_ctrl_safe]. Qed.
+
+Lemma tick_safe s : Inv s -> Safe s -> Safe (fst (tick s)).
+Proof.
+  intros H S. unfold tick.
+  assert (H1 : IS (fst (if flushing s then iter (width (cfg s)) parse_translation s
+                        else run_pipeline s))).
+  { destruct (flushing s) eqn:F.
+    - apply iter_pres; [apply parse_translation_is|split; auto].
+    - unfold run_pipeline.
+      pose proof (iter_pres ISNF respond respond_isnf (width (cfg s)) s
+                            (conj H (conj S F))) as H1.
+      destruct (iter (width (cfg s)) respond s) as [s1 p1]; cbn in H1.
+      pose proof (iter_pres ISNF _ parse_translation_isnf (width (cfg s)) s1 H1) as H2.
+      destruct (iter (width (cfg s)) parse_translation s1) as [s2 p2]; cbn in H2.
+      pose proof (iter_pres ISNF _ translate_isnf (width (cfg s)) s2 H2) as H3.
+      destruct (iter (width (cfg s)) translate s2) as [s3 p3]; cbn in *.
+      destruct H3 as (? & ? & _). split; auto. }
+  destruct (if flushing s then _ else _) as [s1 p1]; cbn in H1.
+  pose proof (guard_pres IS handle_ctrl s1 handle_ctrl_is H1) as H2.
+  destruct (guard handle_ctrl s1) as [s2 p2]; apply H2.
+Qed.
+
+Lemma step_safe s e : Inv s -> Safe s -> benign e = true -> Safe (fst (step s e)).
+Proof.
+  intros H S Hb. unfold step. destruct S as [Hnc Ht Hbo Hc]. rewrite Hnc.
+  destruct e as [m|m|r|m| | | | | ]; cbn in Hb.
+  - destruct (room _ _); constructor; cbn; auto. apply Forall_app; split; auto.
+  - destruct (room _ _); constructor; cbn; auto. apply Forall_app; split; auto.
+  - destruct (room _ _); constructor; cbn; auto.
+  - destruct (room _ _); constructor; cbn; auto. apply Forall_app; split; auto.
+  - pose proof (tick_safe s H (Build_Safe s Hnc Ht Hbo Hc)) as H1.
+    destruct (tick s) as [s' p]; cbn in H1. destruct (crashed s'); exact H1.
+  - destruct (top_out s); constructor; cbn; auto.
+  - destruct (bot_out s); constructor; cbn; auto.
+  - destruct (tr_out s); constructor; cbn; auto.
+  - destruct (ctl_out s); constructor; cbn; auto.
+Qed.
+
+Lemma run_safe evs : forall s, Inv s -> Safe s -> forallb benign evs = true -> Safe (run s evs).
+Proof.
+  induction evs as [|e evs IH]; intros s H S Hb; [exact S|].
+  cbn in Hb. apply andb_prop in Hb as [He Hr].
+  change (run s (e :: evs)) with (run (fst (step s e)) evs).
+  apply IH; auto using step_inv, step_safe.
+Qed.
+
+Lemma init_safe c : Safe (init c).
+Proof. constructor; cbn; auto. Qed.
+
+(** ** progress: nothing is silently stuck *)
+Lemma iter_respond_idle n : forall s,
+  crashed s = false -> bot_in s = [] -> iter n respond s = (s, false).
+Proof.
+  induction n as [|n IH]; intros s Hc Hb; cbn; auto.
+  unfold guard. rewrite Hc. unfold respond at 1. rewrite Hb. rewrite IH; auto.
+Qed.
+
+(** a completed lookup with a waiting request: the request goes down in this
+    very tick if the bottom port has room (no memory response pending) *)
+Lemma forward_progress s a t b r rs rsp :
+  crashed s = false -> flushing s = false -> bot_in s = [] -> (1 <= width (cfg s))%nat ->
+  split_first drainable (txs s) = Some (a, t, b) ->
+  t_reqs t = r :: rs -> t_rsp t = Some rsp -> is_req r = true ->
+  room (width (cfg s)) (bot_out s) = true ->
+  ext (g_fwd s ++ [mkFwd r (t_q t) rsp (xlate (cfg s) (next_bid s) (r_paddr rsp) r)])
+      (g_fwd (fst (tick s))).
+Proof.
+  intros Hc Hf Hb Hw Hsp Hr Hrsp Hreq Hroom.
+  unfold tick. rewrite Hf. unfold run_pipeline.
+  rewrite iter_respond_idle by auto.
+  destruct (width (cfg s)) as [|w] eqn:Ew; [lia|].
+  remember (iter (S w) translate) as IT eqn:EIT.
+  cbn [iter]. unfold guard at 1. rewrite Hc. unfold parse_translation at 1.
+  rewrite Hsp, Hr, Hrsp, Hreq. cbn [negb]. rewrite ?Ew in *. rewrite Hroom.
+  match goal with |- context [iter w parse_translation ?x] => set (s1 := x) end.
+  assert (E0 : g_fwd s1 = g_fwd s ++ [mkFwd r (t_q t) rsp (xlate (cfg s) (next_bid s) (r_paddr rsp) r)])
+    by reflexivity.
+  pose proof (iter_grows _ parse_translation_grows w s1) as (_ & _ & G1 & _).
+  destruct (iter w parse_translation s1) as [a1 q1]; cbn [fst] in G1.
+  pose proof (iter_grows _ translate_grows (S w) a1) as (_ & _ & G2 & _). rewrite <- EIT in G2.
+  destruct (IT a1) as [a2 q2]; cbn [fst] in G2.
+  pose proof (guard_grows handle_ctrl a2 handle_ctrl_grows) as (_ & _ & G3 & _).
+  destruct (guard handle_ctrl a2) as [a3 q3]; cbn [fst] in *.
+  rewrite <- E0. eauto using ext_trans.
+Qed.
+
+(** a memory response for an in-flight request is answered in this very tick
+    if the top port has room *)
+Lemma respond_progress s x rest a p b :
+  crashed s = false -> flushing s = false -> (1 <= width (cfg s))%nat ->
+  bot_in s = x :: rest -> is_rsp x = true ->
+  split_first (fun p => m_id (snd p) =? m_rspto x) (inflight s) = Some (a, p, b) ->
+  room (width (cfg s)) (top_out s) = true ->
+  ext (g_ans s ++ [mkAns (fst p) (snd p) x (answer (fst p) x)]) (g_ans (fst (tick s))).
+Proof.
+  intros Hc Hf Hw Hb Hk Hsp Hroom.
+  unfold tick. rewrite Hf. unfold run_pipeline.
+  destruct (width (cfg s)) as [|w] eqn:Ew; [lia|].
+  remember (iter (S w) parse_translation) as IP eqn:EIP.
+  remember (iter (S w) translate) as IT eqn:EIT.
+  cbn [iter]. unfold guard at 1. rewrite Hc. unfold respond at 1.
+  rewrite Hb, Hk. cbn [negb]. rewrite ?Ew in *. rewrite Hsp, Hroom.
+  match goal with |- context [iter w respond ?y] => set (s1 := y) end.
+  assert (E0 : g_ans s1 = g_ans s ++ [mkAns (fst p) (snd p) x (answer (fst p) x)]) by reflexivity.
+  pose proof (iter_grows _ respond_grows w s1) as (_ & _ & _ & G1).
+  destruct (iter w respond s1) as [a1 q1]; cbn [fst] in G1.
+  pose proof (iter_grows _ parse_translation_grows (S w) a1) as (_ & _ & _ & G2). rewrite <- EIP in G2.
+  destruct (IP a1) as [a2 q2]; cbn [fst] in G2.
+  pose proof (iter_grows _ translate_grows (S w) a2) as (_ & _ & _ & G3). rewrite <- EIT in G3.
+  destruct (IT a2) as [a3 q3]; cbn [fst] in G3.
+  pose proof (guard_grows handle_ctrl a3 handle_ctrl_grows) as (_ & _ & _ & G4).
+  destruct (guard handle_ctrl a3) as [a4 q4]; cbn [fst] in *.
+  rewrite <- E0. eauto using ext_trans.
+Qed.
+
+(** while flushing, nothing is forwarded and nothing is answered *)
+Definition frozen (s s' : st) : Prop :=
+  txs s' = txs s /\ g_fwd s' = g_fwd s /\ g_ans s' = g_ans s /\ inflight s' = inflight s /\
+  bot_out s' = bot_out s /\ top_out s' = top_out s /\ ctl_in s' = ctl_in s /\
+  ctl_out s' = ctl_out s /\ flushing s' = flushing s.
+
+Lemma frozen_refl s : frozen s s.
+Proof. repeat split. Qed.
+Lemma frozen_trans a b c : frozen a b -> frozen b c -> frozen a c.
+Proof. unfold frozen. intuition congruence. Qed.
+
+Lemma parse_translation_frozen s : txs s = [] -> frozen s (fst (parse_translation s)).
+Proof.
+  intros E. unfold parse_translation. rewrite E. cbn.
+  destruct (tr_in s); cbn; repeat split.
+Qed.
+
+Lemma iter_parse_frozen n : forall s,
+  txs s = [] -> frozen s (fst (iter n parse_translation s)).
+Proof.
+  induction n as [|n IH]; intros s E; cbn; [apply frozen_refl|].
+  assert (H1 : frozen s (fst (guard parse_translation s))).
+  { unfold guard. destruct (crashed s); [apply frozen_refl|now apply parse_translation_frozen]. }
+  destruct (guard parse_translation s) as [s1 p1]; cbn in H1.
+  assert (E1 : txs s1 = []) by (destruct H1 as (-> & _); auto).
+  specialize (IH s1 E1). destruct (iter n parse_translation s1) as [s2 p2]; cbn in *.
+  eapply frozen_trans; eauto.
+Qed.
+
+Lemma flushing_inert s :
+  Inv s -> flushing s = true -> ctl_in s = [] ->
+  let s' := fst (tick s) in
+  g_fwd s' = g_fwd s /\ g_ans s' = g_ans s /\ bot_out s' = bot_out s /\ top_out s' = top_out s /\
+  txs s' = [] /\ inflight s' = [] /\ flushing s' = true.
+Proof.
+  intros H Hf Hctl. destruct (i_flush s H Hf) as [Et Ei].
+  unfold tick. rewrite Hf.
+  pose proof (iter_parse_frozen (width (cfg s)) s Et) as H1.
+  destruct (iter (width (cfg s)) parse_translation s) as [s1 p1]; cbn in H1.
+  destruct H1 as (E1 & F1 & A1 & I1 & B1 & T1 & C1 & O1 & L1).
+  unfold guard. destruct (crashed s1); cbn.
+  - repeat split; congruence.
+  - unfold handle_ctrl. rewrite C1, Hctl. cbn. repeat split; congruence.
 Qed.
